@@ -1873,6 +1873,10 @@ def m_iter_foldlike(ex, state, frame, dest, args, ret_block, work, callee):
     which = normalize_callee(callee).rsplit("::", 1)[1]
     r = args[0]
     it = _val(ex, state, r)
+    if isinstance(it, Opaque) and which in ("any", "all") and getattr(ex, "approx_opaque_iters", False):
+        # a yes/no question about a sequence the executor cannot see (e.g. syn's `generics.type_params()`): both answers are explored; the closure is not run,
+        # which is an over-approximation only as long as it has no effect of its own (stated where the flag is set)
+        return _ret(ex, state, frame, dest, ex.bvar(ex.fresh_name("opaque-bool(%s)" % which)), ret_block)
     if not isinstance(it, (IterS, IterL, FMap, FlatMap)):
         raise Inconclusive("%s over %r" % (which, it))
     unit = Agg("tuple", None, None, [])
